@@ -199,6 +199,45 @@ def cmd_gen(seed):
     print("%d candidate mutants in %d files; by operator: %s" % (len(lst), len({c["file"] for c in lst}), byop))
 
 
+def cmd_gen_outside(seed, sample):
+    """Second campaign: lines of the library's source files that NO property anchors (helpers, constructors, error paths),
+    sampled; each mutant is run against the checks of its file family."""
+    ranges = anchor_ranges()
+    anchored = {}
+    files = set()
+    for pid, f, lo, hi in ranges:
+        files.add(f)
+    extra = ["thresholdsign.go", "bls_crossBLST.go", "hash/hash.go", "hash/sha2.go", "hash/sha3.go", "hash/legacy_keccak.go", "hash/types.go", "random/rand.go", "common.go", "sign.go", "spock.go"]
+    for f in extra:
+        if os.path.exists(os.path.join(REPO, f)):
+            files.add(f)
+    known = {json.loads(l)["id"] for l in open(CAND)} if os.path.exists(CAND) else set()
+    cands = {}
+    for f in sorted(files):
+        if not os.path.exists(os.path.join(REPO, f)) or f.endswith((".s", ".S")) or "_test.go" in f or f == "no_cgo.go":
+            continue
+        new = open(os.path.join(REPO, f), errors="replace").read().splitlines()
+        depth_ok = False
+        for ln, line in enumerate(new, 1):
+            for op, desc, newline in mutants_of_line(f, ln, line):
+                if op in ("CONST", "SDL"):  # the least informative operators are left to the first campaign
+                    continue
+                mid = hashlib.sha1(("%s:%d:%s:%s" % (f, ln, desc, line)).encode()).hexdigest()[:10]
+                if mid in known:
+                    continue
+                cands[mid] = dict(id=mid, file=f, line=ln, op=op, desc=desc, before=line, after=newline, props=family(f)[:6], campaign="outside-anchors")
+    lst = sorted(cands.values(), key=lambda c: c["id"])
+    random.Random(seed).shuffle(lst)
+    lst = lst[:sample]
+    with open(CAND, "a") as fo:
+        for c in lst:
+            fo.write(json.dumps(c) + "\n")
+    byop = {}
+    for c in lst:
+        byop[c["op"]] = byop.get(c["op"], 0) + 1
+    print("%d candidates outside the anchored ranges appended (sampled); by operator: %s" % (len(lst), byop))
+
+
 def goenv():
     e = dict(os.environ)
     e.pop("GOFLAGS", None)
@@ -505,6 +544,8 @@ if __name__ == "__main__":
         sys.exit(0)
     if a[0] == "gen":
         cmd_gen(int(opt(a, "--seed", "1")))
+    elif a[0] == "gen-outside":
+        cmd_gen_outside(int(opt(a, "--seed", "2")), int(opt(a, "--sample", "400")))
     elif a[0] == "run":
         cmd_run(a[1:])
     elif a[0] == "recheck":
